@@ -43,7 +43,7 @@ def main():
         "needs_to_manifest": notes.strip().splitlines()[:12],
         "confirmed": confirmed,
         "confirmation": {"command": "tools/seedcheck.sh seeded/%s %s (TIER=%s)" % (name, " ".join(checks), os.environ.get("TIER", "quick")),
-                         "repo_head": subprocess.run(["git", "-C", "/repo", "rev-parse", "--short", "HEAD"], capture_output=True, text=True).stdout.strip(),
+                         "repo_head": subprocess.run(["git", "-C", "/repo", "rev-parse", "--short", os.environ.get("SEED_BASE", "HEAD")], capture_output=True, text=True).stdout.strip(),
                          **res},
         "checks_run": detected,
         "detected_by": sorted(k for k, v in detected.items() if v["exit"] == 1),
